@@ -86,6 +86,9 @@ ObjKinds == {"st", "un", "del", "inner", "svc", "req"}      \* structure, union,
 \* attributes of the caller's own (structure, union, the delimited wrapper of such a structure): the caller's list is one more
 \* list that may alias the object's state - "ctor_arg" stands for it in a history
 BuiltKinds == {"bst", "bun", "bdel"}
+\* a structure built from a generator / a tuple of attributes (nothing of the caller's to alias): it shows what the one built
+\* from a list shows
+ArgFormKinds == {"gst", "tst"}
 AccessorsOf(o) == IF o \in BuiltKinds THEN Accessors \cup {"ctor_arg"} ELSE Accessors
 \* what the object shows: name components and the numbers of attributes; a handed-out list is a copy unless aliased
 Obj0 == [names |-> <<"ns", "sub", "T">>, nattr |-> 3]
@@ -93,7 +96,7 @@ MutList(l, op) == CASE op = "append" -> Append(l, "zz") [] op = "clear" -> <<>> 
                     [] op = "reverse" -> [j \in DOMAIN l |-> l[Len(l) + 1 - j]] [] op = "setitem" -> IF l = <<>> THEN l ELSE [l EXCEPT ![1] = "zz"]
 AInit == ph = 0 /\ case = [obj |-> "st", warm |-> FALSE, h |-> <<>>] /\ out = Obj0
 APick == /\ Mode = "acc" /\ ph = 0
-         /\ \E o \in ObjKinds \cup BuiltKinds, w \in BOOLEAN : case' = [obj |-> o, warm |-> w, h |-> <<>>]
+         /\ \E o \in ObjKinds \cup BuiltKinds \cup ArgFormKinds, w \in BOOLEAN : case' = [obj |-> o, warm |-> w, h |-> <<>>]
          /\ out' = Obj0 /\ ph' = 1
 AStep == /\ Mode = "acc" /\ ph >= 1 /\ ph <= MaxSteps
          /\ \E a \in AccessorsOf(case.obj), op \in Ops :
